@@ -1162,7 +1162,7 @@ def correspond(res, rng, tier):
   res.add_samples(samples)
   if crash_samples:
     res.cov["collection_crash_samples"] = crash_samples
-  disagreements = disagreements + callable_family(res, drv)
+  disagreements = disagreements + callable_family(res, drv) + callable_value_family(res, drv)
   return disagreements
 
 
@@ -1279,6 +1279,84 @@ def callable_family(res, drv):
                     "case": text})
   res.cov["callable_family"] = stats
   return dis
+
+
+CARG_T = ["int", "str", "float", "object", "bool"]
+CARG_C = {"int": "i", "str": "s", "float": "f", "object": "o", "bool": "b"}
+
+
+def callable_value_cases():
+  """every pair (declared argument list, expected argument list) over five scalar classes with one or two arguments
+  on both sides, plus arity mismatches (0/1, 1/2, 2/1, 1/0)"""
+  import itertools
+  cases = []
+  for n in (1, 2):
+    for dec in itertools.product(CARG_T, repeat=n):
+      for exp in itertools.product(CARG_T, repeat=n):
+        cases.append((dec, exp))
+  cases += [(("int",), ("int", "int")), (("int", "str"), ("int",)), ((), ("int",)), (("int",), ()),
+            (("object", "object"), ("str",)), (("float",), ("int", "bool"))]
+  return cases
+
+
+def callable_value_module(cases):
+  nm = lambda t: "_".join(t) or "z"
+  L = ["from typing import Any, Callable"]
+  for e in sorted({e for _, e in cases}):
+    L.append("def g_%s(c: Callable[[%s], None]): pass" % (nm(e), ", ".join(e)))
+  decs = sorted({d for d, _ in cases})
+  L.append("def run(" + ", ".join("v_%s: Callable[[%s], None]" % (nm(d), ", ".join(d)) for d in decs) + "):")
+  where = {}
+  for i, (d, e) in enumerate(cases):
+    L.append("  g_%s(v_%s)" % (nm(e), nm(d)))
+    where[len(L)] = i
+  return "\n".join(L) + "\n", where
+
+
+def callable_value_spec(d, e):
+  """PEP 484, independent of the model: same number of arguments and each expected argument type acceptable where the
+  declared one is expected (bool <= int <= float by promotion, everything <= object)"""
+  def sub(a, b):
+    return a == b or b == "object" or (a, b) in (("bool", "int"), ("bool", "float"), ("int", "float"))
+  return len(d) == len(e) and all(sub(x, y) for x, y in zip(e, d))
+
+
+def callable_value_real(cases):
+  src, where = callable_value_module(cases)
+  errs = real_errors(src)
+  flagged = {where[line] for name, line in errs if name == "wrong-arg-types" and line in where}
+  stray = [(n, l) for n, l in errs if not (n == "wrong-arg-types" and l in where)]
+  return src, flagged, stray
+
+
+def callable_value_family(res, drv):
+  """K5: a parameter declared Callable[[D..], None] passed where Callable[[E..], None] is expected: Lean matchArgs ==
+  the real matcher's verdict == the PEP 484 rule, for every pair of argument lists of length <= 2 over five classes."""
+  cases = callable_value_cases()
+  enc = lambda t: "".join(CARG_C[x] for x in t) or "-"
+  out = drv.batch(["cargs %s %s" % (enc(d), enc(e)) for d, e in cases])
+  src, flagged, stray = callable_value_real(cases)
+  dis = []
+  if stray:
+    dis.append({"stage": "K5-callable-value", "what": "unexpected errors in the family module", "errors": stray[:5]})
+  n_rej = 0
+  for i, ((d, e), o) in enumerate(zip(cases, out)):
+    m = o.strip() == "1"
+    n_rej += (not m)
+    text = "a Callable[[%s], None] value passed as Callable[[%s], None]" % (", ".join(d), ", ".join(e))
+    if m != callable_value_spec(d, e):
+      dis.append({"stage": "K5-callable-value", "what": "Lean matchArgs != PEP 484 rule", "case": text})
+    if (i in flagged) != (not m):
+      dis.append({"stage": "K5-callable-value", "what": "model!=pytype", "case": text, "lean_matchArgs": m,
+                  "real_error": i in flagged})
+  res.cov["callable_value_family"] = {"cases": len(cases), "model_reject": n_rej}
+  return dis
+
+
+def callable_value_oracle():
+  cases = callable_value_cases()
+  src, flagged, _ = callable_value_real(cases)
+  return [(d, e, i in flagged) for i, (d, e) in enumerate(cases) if (i in flagged) == callable_value_spec(d, e)]
 
 
 def callable_oracle(cases):
@@ -1498,6 +1576,19 @@ def shrink(bases, a, v, site, deadline):
 
 def search(res, rng, disagreements, pfail):
   budget = 120 if common.tier() == "quick" else 400
+  if any(d.get("stage") == "K5-callable-value" for d in disagreements) or any("callable_args" in str(f) for f in pfail):
+    bad = callable_value_oracle()
+    if bad:
+      bad.sort(key=lambda b: (len(b[0]) + len(b[1]), b[0], b[1]))
+      d, e, err = bad[0]
+      src, _ = callable_value_module([(d, e)])
+      return [{"kind": "callable-value", "program": src, "pytype_reports_error": err,
+               "pep484_member": callable_value_spec(d, e),
+               "text": "a value declared Callable[[%s], None] passed where Callable[[%s], None] is expected: pytype %s, "
+                       "PEP 484 (contravariant arguments) says it %s" % (
+                           ", ".join(d), ", ".join(e), "reports wrong-arg-types" if err else "accepts it",
+                           "conforms" if callable_value_spec(d, e) else "does not conform"),
+               "others": len(bad) - 1}]
   if any(d.get("stage") == "K4-callable" for d in disagreements) or any("callable_arity" in str(f) for f in pfail):
     bad = callable_oracle([(s_, n) for s_ in callable_sigs() for n in range(4)])
     if bad:
@@ -1613,6 +1704,7 @@ REQUIRED[:] = [
     "deviation_collection", "guard_of_small", "site_uniform", "site_uniform_not_full", "site_uniform_not_full_asg",
     "site_le_ret", "singleView_of_small", "site_exact_partial",
     "callable_arity_no_false_error", "callable_arity_exact_partial", "callable_arity_exact_not_full",
+    "callable_args_contravariant", "subS_refl", "subS_trans",
 ]
 
 
